@@ -221,6 +221,17 @@ def findKey (keys : List S) (k : S) : Option S :=
   else if k.getLast? = some '/' then (if keys.contains (rstrip '/' k) then some (rstrip '/' k) else none)
   else (if keys.contains (k ++ ['/']) then some (k ++ ['/']) else none)
 
+/-! ### skip-clean scoping -/
+
+/-- `URL.is_part_of(other)`: `other == base or other.startswith(base + "/")`, `base = str(self).rstrip("/")` (URL strings as
+    `str(URL)` renders them: without credentials) -/
+def isPartOf (repoUrl other : S) : Bool :=
+  let base := rstrip '/' repoUrl
+  other = base || (base ++ ['/']).isPrefixOf other
+
+/-- `Config._update_skip_clean` for one skip-clean URL: every repository whose URL the skip-clean URL is a part of gets an entry -/
+def skipCleanTargets (repoUrls : List S) (u : S) : List S := repoUrls.filter (fun r => isPartOf r u)
+
 /-- `Config.get_bool` -/
 def getBool (v : S) : Bool :=
   !v.isEmpty && !(["0".toList, "off".toList, "no".toList].contains (v.map Char.toLower))
